@@ -37,7 +37,7 @@ VItems == [v \in 1 .. NV |-> Items(Variants[v].kind, Variants[v].fill)]     \* e
 
 \* the variants that may expand the pending request h (at depth 0 only leaf variants, if the category has any);
 \* tabulated once per run (constant-level definitions are evaluated once by TLC)
-AllCats == UNION {Variants[v].cats : v \in 1 .. NV} \cup {RootCat, "inner", "nsitem", "top", "top1", "toplast"}
+AllCats == UNION {Variants[v].cats : v \in 1 .. NV} \cup {RootCat, "inner", "nsitem", "top", "top1", "toplast", "nsonly"}
 CandBase == [c \in AllCats |-> [m \in 0 .. 31 |-> {v \in 1 .. NV : Usable(v) /\ InCat(v, c) /\ Variants[v].lvl >= m}]]
 CandLeaf == [c \in AllCats |-> [m \in 0 .. 31 |-> {v \in CandBase[c][m] : Variants[v].leaf}]]
 Cands(h) == IF h.d > 0 \/ CandLeaf[h.cat][h.min] = {} THEN CandBase[h.cat][h.min] ELSE CandLeaf[h.cat][h.min]
